@@ -289,7 +289,11 @@ def r8_walk_model(rep, facts):
         def hook(self, name, recv, args):
             base = name[:-len(self.suffix)] if self.suffix and name.endswith(self.suffix) else name
             self.seen.append((base, self.node_tag(args[-1])))
-            d = f'toml_edit::{self.module}::{name}'
+            # the recording visitor overrides nothing: a hook is the trait's default method (which hands over to the free walker of the same name)
+            trait = 'VisitMut' if self.module == 'visit_mut' else 'Visit'
+            d = f'toml_edit::{self.module}::{trait}::{name}'
+            if not self.ev.facts.has_body(d):
+                d = f'toml_edit::{self.module}::{name}'
             if not self.ev.facts.has_body(d):
                 raise Unanalysable(f'default walker `{d}` not found')
             return self.apply_fn(self.ev.facts.body(d), [recv] + args)
@@ -352,6 +356,11 @@ def r8_walk_model(rep, facts):
             k = sum(1 for h, _ in w.seen if h == hook)
             if k != n_entries:
                 diffs.append(f'{hook}: called {k} times, the document has {n_entries} key/value entries')
+        # the hooks in between are called as well (a walker that goes straight to the free function of the next level skips the hook an implementor may have overridden)
+        for hook, n_ in (('visit_value', 14), ('visit_table_like', 8)):
+            k = sum(1 for h, _ in w.seen if h == hook)
+            if k != n_:
+                diffs.append(f'{hook}: called {k} times, the document has {n_} such nodes')
         order_ok = [t for h, t in w.seen if h in ('visit_string', 'visit_integer', 'visit_float', 'visit_boolean', 'visit_datetime')] == ['s', 'i', 'f', 'b', 'd', 'arr.0', 'arr.1.x', 'it.y', 'dot.z', 't.u', 'aot.0.k']
         rep.check(R, module, not diffs and order_ok, f'{len(w.seen)} hook calls, every node once, scalars in document order',
                   f'the default walk of `{entry}` over the model document: ' + ('; '.join(diffs[:3]) if diffs else 'the scalars are not reached in document order') +
